@@ -27,7 +27,7 @@ REQUIRED = [
     "plan_total", "escape_clean", "escape_roundtrip_partial", "escape_roundtrip_not_full",
     "value_roundtrip_partial", "module_name_partial", "module_name_not_full",
     "imports_line_roundtrip_partial", "imports_line_not_full",
-    "graph_sources_total", "graph_wf", "graph_deps_closed", "graph_checked_once",
+    "graph_sources_total", "graph_wf", "graph_deps_closed", "graph_checked_once", "graph_deps_exact",
 ]
 
 SCRATCH = os.path.join(common.BUILD, "c19")
@@ -181,7 +181,7 @@ def parse_graph_answer(ans):
     for g in t[2].split(";"):
       a, b = g.split("|")
       gs.append([[int(x) for x in a.split(",") if x], [int(x) for x in b.split(",") if x]])
-  return t[1] == "1", gs
+  return t[1] == "11", gs
 
 
 # ----------------------------------------------------------------------------------------------
@@ -555,7 +555,7 @@ def compare(case, real, model_line, yield_line, lean):
       bad.append("Lean model of deps_from_import_graph gives %r, the contract as the harness states it %r" % (
           exp, graph_expected_sources(case)))
     if case.get("_lean_topo") is False:
-      bad.append("premise `topo` of graph_deps_closed does not hold for the generated graph")
+      bad.append("premises `topo` / `stubsDistinct` of graph_deps_closed / graph_deps_exact do not hold for the generated graph")
     ids = [m for g, _ in exp for m in g]
     if len(ids) != len(set(ids)):
       bad.append("premise of graph_wf (distinct source files) does not hold for the generated graph")
